@@ -63,6 +63,17 @@ var docs = map[string]string{
 		"0 @F1@ FAM\n1 HUSB @I1@\n1 WIFE @I2@\n1 CHIL @I4@\n1 MARR\n2 DATE 5 May 1825\n2 PLAC Tietown, England\n0 @F2@ FAM\n1 HUSB @I1@\n1 WIFE @I3@\n1 MARR\n2 DATE 6 Jun 1825\n2 PLAC Tietown, England\n",
 }
 
+func init() {
+	// a family with one living member (born thirty years ago) who has a surname and a place of her own: the
+	// only document on which the three visibilities give three different sites
+	y := time.Now().Year() - 30
+	docs["D7"] = dead("I1", "Adam /Ash/", "1 Jan 1800", "Sharedtown, England", "1 FAMS @F1@", "1 FAMS @F2@") + dead("I2", "Beth /Birch/", "2 Feb 1802", "Sharedtown, England", "1 FAMS @F1@", "1 FAMS @F3@") +
+		fmt.Sprintf("0 @I3@ INDI\n1 NAME Liv /Lively/\n1 SEX F\n1 BIRT\n2 DATE 1 Jan %d\n2 PLAC Livtown, Norway\n1 FAMC @F1@\n", y) +
+		"0 @F1@ FAM\n1 HUSB @I1@\n1 WIFE @I2@\n1 CHIL @I3@\n1 MARR\n2 DATE 1 Jun 1825\n" +
+		// incomplete families: the "nobody there" branches of the cached Husband() and Wife()
+		"0 @F2@ FAM\n1 HUSB @I1@\n0 @F3@ FAM\n1 WIFE @I2@\n0 @S1@ SOUR\n1 TITL Register\n"
+}
+
 // hostile: name collisions and their dangling links are a known weakness on the documents built to
 // provoke them; the same finding on an ordinary document is another matter, so the document class
 // is part of the signature.
@@ -161,6 +172,8 @@ type kase struct {
 	Bound  int          `json:"bound,omitempty"`
 	CLI    bool         `json:"cli,omitempty"`            // names: through the built `gedcom publish` command
 	Shared bool         `json:"shared_options,omitempty"` // histories: one options struct for all publishings
+	RealDir bool        `json:"real_directory,omitempty"` // schedules: the real DirectoryFileWriter into a scratch directory (file-system operations are scheduling points)
+	Twin   string       `json:"twin,omitempty"`           // histories: two publishers of ONE document object, both constructed before either publishes; the other one's visibility
 }
 
 var cliBinary = filepath.Join(vlib.VerifDir, ".build", "gedcom-bin-c19")
@@ -359,11 +372,37 @@ func execPublish(k kase, devs []vsched.Dev) (*vsched.Outcome, *pub.MemWriter, er
 	var err error
 	returned := false
 	ghtml.VerifResetSurnames() // every execution starts from the state of a fresh process
+	if k.RealDir {
+		// the writer the command line uses, into a fresh scratch directory; what is on disk afterwards is the site
+		dir, derr := os.MkdirTemp(scratchRoot(), "c19-sched-")
+		if derr != nil {
+			panic(derr)
+		}
+		defer os.RemoveAll(dir)
+		fw := core.NewDirectoryFileWriter(dir)
+		out := vsched.Run(vsched.Config{Prefix: vsched.PrefixOf(devs), MapOrderReverse: k.MapRev, Horizon: 200000}, func() {
+			err = ghtml.NewPublisher(doc, opt).Publish(fw, k.Jobs)
+			returned = true
+		})
+		entries, _ := os.ReadDir(dir)
+		for i, e := range entries {
+			b, _ := os.ReadFile(filepath.Join(dir, e.Name()))
+			w.Pages = append(w.Pages, pub.Page{Name: e.Name(), Body: string(b), Seq: i + 1})
+		}
+		return out, w, err, returned
+	}
 	out := vsched.Run(vsched.Config{Prefix: vsched.PrefixOf(devs), MapOrderReverse: k.MapRev, Horizon: 200000}, func() {
 		err = ghtml.NewPublisher(doc, opt).Publish(w, k.Jobs)
 		returned = true
 	})
 	return out, w, err, returned
+}
+
+func scratchRoot() string {
+	if st, err := os.Stat("/dev/shm"); err == nil && st.IsDir() {
+		return "/dev/shm"
+	}
+	return os.TempDir()
 }
 
 func judgeExecution(k kase, ref site, out *vsched.Outcome, w *pub.MemWriter, err error, returned bool) (fs []finding) {
@@ -512,6 +551,30 @@ func judgeHistory(k kase) (fs []finding) {
 }
 
 func judgeHistoryHere(k kase) (fs []finding) {
+	if k.Twin != "" {
+		// a private and a public site of the same document object (the way a program that keeps a document in
+		// memory publishes it twice): both publishers exist before the first one publishes
+		d := k.Seq[0]
+		doc := decode(d)
+		livings := []string{k.Twin, k.Living}
+		var ps []*ghtml.Publisher
+		for _, l := range livings {
+			ps = append(ps, ghtml.NewPublisher(doc, pub.Options(k.Mask, vis(l))))
+		}
+		for i, p := range ps {
+			w := &pub.MemWriter{}
+			if err := p.Publish(w, k.Jobs); err != nil {
+				fs = append(fs, finding{"publish-returns-error", err.Error()})
+			}
+			got, _ := siteOf(w)
+			want := alone(d, k.Mask, livings[i])
+			if got.key() != want.key() {
+				fs = append(fs, finding{"site-depends-on-earlier-publishing:publishers-constructed-first:" + diffClasses(want, got), fmt.Sprintf("%s (-living %s) published by the %d. of two publishers constructed together (the other: -living %s) differs from publishing it alone in a fresh process: %s", d, livings[i], i+1, livings[1-i], diffSites(want, got))})
+				return
+			}
+		}
+		return
+	}
 	shared := pub.Options(k.Mask, vis(k.Living))
 	for i, d := range k.Seq {
 		doc := decode(d)
@@ -553,7 +616,7 @@ func bound(tier string) int {
 func units(tier string) []kase {
 	var out []kase
 	// names and closure
-	for _, d := range []string{"D1", "D2", "D3", "D5", "D6", "empty"} {
+	for _, d := range []string{"D1", "D2", "D3", "D5", "D6", "D7", "empty"} {
 		for _, living := range []string{"show", "hide", "placeholder"} {
 			for mask := 0; mask < 64; mask++ {
 				out = append(out, kase{Part: "names", Doc: d, Mask: mask, Living: living, Jobs: 1})
@@ -571,9 +634,16 @@ func units(tier string) []kase {
 		}
 		out = append(out, kase{Part: "schedules", Doc: d, Mask: 63, Living: "show", Jobs: 2, Bound: bound(tier) - 1, MapRev: true})
 		out = append(out, kase{Part: "schedules", Doc: d, Mask: 9, Living: "placeholder", Jobs: 2, Bound: bound(tier) - 1})
+		// the real directory writer: two and three workers creating, writing and closing files next to each other
+		out = append(out, kase{Part: "schedules", Doc: d, Mask: 63, Living: "show", Jobs: 2, Bound: bound(tier) - 1, RealDir: true})
+		out = append(out, kase{Part: "schedules", Doc: d, Mask: 63, Living: "show", Jobs: 3, Bound: bound(tier) - 1, RealDir: true})
 		if tier == "thorough" {
 			out = append(out, kase{Part: "schedules", Doc: d, Mask: 63, Living: "show", Jobs: 8, Bound: 1}, kase{Part: "schedules", Doc: d, Mask: 63, Living: "show", Jobs: 16, Bound: 1})
 		}
+	}
+	// the document with a living member and incomplete families, all visibilities
+	for _, living := range []string{"show", "hide", "placeholder"} {
+		out = append(out, kase{Part: "schedules", Doc: "D7", Mask: 63, Living: living, Jobs: 2, Bound: bound(tier) - 1})
 	}
 	// histories
 	seqDocs := []string{"D1", "D2", "D4", "D6", "empty"}
@@ -593,6 +663,13 @@ func units(tier string) []kase {
 		}
 		if len(s) == 2 {
 			out = append(out, kase{Part: "histories", Seq: s, Mask: 63, Living: "show", Jobs: 1, Shared: true}, kase{Part: "histories", Seq: s, Mask: 63, Living: "hide", Jobs: 1, Shared: true})
+		}
+	}
+	for _, d := range []string{"D2", "D6", "D7"} {
+		for _, pair := range [][2]string{{"show", "hide"}, {"show", "placeholder"}, {"hide", "show"}, {"placeholder", "hide"}, {"show", "show"}} {
+			for _, mask := range []int{63, 9} {
+				out = append(out, kase{Part: "histories", Seq: []string{d}, Mask: mask, Living: pair[1], Jobs: 1, Twin: pair[0]})
+			}
 		}
 	}
 	// names and closure through the command line
@@ -664,7 +741,7 @@ func run(tier, unit string, r *vlib.Rec) {
 	case "histories":
 		r.Eval()
 		r.Add("transitions", int64(len(k.Seq)))
-		if len(k.Seq) > 1 {
+		if len(k.Seq) > 1 || k.Twin != "" {
 			r.Nontrivial(vlib.JSON(k))
 		}
 		report(judgeHistory(k), k)
@@ -773,12 +850,20 @@ func main() {
 		ID:    "C19",
 		Level: "model_checking",
 		Rule: "four parts. names: documents D1 (one person, place, source), D2 (two people with different surnames, a shared place, a family, a source), D3 (hostile: source pointers '../x', 'a/b', 'places', 'x y', '.', '..'; two people whose names collapse to one file key; a person whose key equals a place key; a place named like a list page; surnames starting with a digit, '#', a multi-byte letter) and the empty document x all 64 page-group subsets x 3 visibilities: plain unique file names, every link resolves, DirectoryFileWriter confinement. " +
-			"schedules: the real instrumented Publisher.Publish on D1/D2 under the vsched scheduler, jobs {1,2,3,(8,16)}, every schedule with <=d deviations, set of (name, bytes) equal to the sequential reference, race monitor, termination. histories: every sequence of <=3 publishes over {D1, D2, D4 (D2's pointers reused for other people), empty} in one process against the same document published alone in a fresh process. faults: the writer fails at the k-th file for every k and jobs {1,2,3,8} (and under every schedule within the bound on D1): Publish must return an error and terminate. " +
+			"schedules: the real instrumented Publisher.Publish on D1/D2 under the vsched scheduler, jobs {1,2,3,(8,16)}, every schedule with <=d deviations, set of (name, bytes) equal to the sequential reference, race monitor, termination. histories: every sequence of <=3 publishes over {D1, D2, D4 (D2's pointers reused for other people), empty} in one process against the same document published alone in a fresh process. faults: the writer fails at the k-th file - once, and from there on (several workers fail) - for every k and jobs {1,2,3,8} (and under every schedule within the bound on D1): Publish must return an error and terminate. also: D7 (a family with one living member) in the names part; two publishers of one document object constructed before either publishes (visibility pairs); the real DirectoryFileWriter into a scratch directory under the scheduler with file-system operations as scheduling points (jobs 2 and 3). " +
 			"states = distinct global operation traces (schedules part) ; distinct_nontrivial counts those plus the distinct names/history cases.",
 		Assumptions: []string{
 			"Go map iteration inside the instrumented packages is replaced by sorted (or reverse-sorted, as a configuration) key order under exploration, so replay is deterministic; outside exploration Go's own order applies",
 			"the order in which files reach the writer is not part of the oracle; the memory writer renders every page under recover",
 			"goroutines left parked after a writer failure are reported as leaked, not as a hang of Publish",
+		},
+		// "identical across runs ... and earlier publishing": a difference between two publishings that comes
+		// back in some replays and not in others is what these oracles forbid, not a reason to doubt them
+		MinReproFor: func(sig string) int {
+			if strings.HasPrefix(sig, "site-depends-on-earlier-publishing") || strings.HasPrefix(sig, "file-content-depends-on-earlier-publishing") {
+				return 1
+			}
+			return 0
 		},
 		Plan:       plan,
 		Run:        run,
